@@ -2,6 +2,7 @@ package main
 
 import (
 	"context"
+	"encoding/json"
 	"errors"
 	"fmt"
 	"io"
@@ -37,6 +38,21 @@ type createdAt struct {
 
 func runCatSchedule(scripts map[int][]catCall, k int, choose func(parked []int, step int) int) (acts, results, trace []string, created []createdAt, err error) {
 	store := newSchedStore()
+	// Restore (kinds 3 and 4, manager 0 only) needs a real NodeHost: it starts the recovery shard and loads the stream
+	// between its store operations
+	var nh *dragonboat.NodeHost
+	var members map[uint64]string
+	for _, cs := range scripts {
+		for _, c := range cs {
+			if c.kind >= 3 && nh == nil {
+				nh, members, err = startNodeHost()
+				if err != nil {
+					return nil, nil, nil, nil, err
+				}
+				defer nh.Close()
+			}
+		}
+	}
 	var actors []int
 	for a := 0; a < k; a++ {
 		actors = append(actors, a)
@@ -45,6 +61,12 @@ func runCatSchedule(scripts map[int][]catCall, k int, choose func(parked []int, 
 	mgr := map[int]*table.Manager{}
 	for _, a := range actors {
 		cfg := table.Config{NodeID: uint64(a + 1), Table: table.TableConfig{BlockCacheSize: 1024, TableCacheSize: 1024}}
+		if a == 0 && nh != nil {
+			cfg.Table = table.TableConfig{HeartbeatRTT: 1, ElectionRTT: 5, FS: pvfs.NewMem(), BlockCacheSize: 1024, TableCacheSize: 1024}
+			cfg.Meta = table.MetaConfig{HeartbeatRTT: 1, ElectionRTT: 5}
+			mgr[a] = table.NewManager(nh, members, sch.gates[a], cfg)
+			continue
+		}
 		mgr[a] = table.NewManager(nil, nil, sch.gates[a], cfg)
 	}
 	for _, a := range actors {
@@ -70,6 +92,34 @@ func runCatSchedule(scripts map[int][]catCall, k int, choose func(parked []int, 
 					switch {
 					case e == nil:
 						done("deleted")
+					case errors.Is(e, serrors.ErrTableNotFound):
+						done("notfound")
+					default:
+						done("failed")
+					}
+				case 3, 4:
+					sf, e := c14Stream([][2]string{{"ra", "1"}, {"rb", "2"}, {"rc", "3"}})
+					if e != nil {
+						done("failed")
+						continue
+					}
+					var rd io.Reader = sf
+					if c.kind == 4 {
+						rd = &failingReader{r: sf, n: 2}
+					}
+					e = mgr[a].Restore(catNames[c.name], rd)
+					_ = sf.Close()
+					_ = os.Remove(sf.Path())
+					switch {
+					case e == nil:
+						var id uint64
+						if p, le := store.lookup(kv.QueryKey{Key: "/tables/" + catNames[c.name]}); le == nil {
+							var t table.Table
+							if json.Unmarshal([]byte(p.(kv.Pair).Value), &t) == nil {
+								id = t.ClusterID
+							}
+						}
+						done(fmt.Sprintf("restored-%d", id))
 					case errors.Is(e, serrors.ErrTableNotFound):
 						done("notfound")
 					default:
@@ -107,6 +157,16 @@ func runCatSchedule(scripts map[int][]catCall, k int, choose func(parked []int, 
 			fmt.Sscanf(result, "created-%d", &id)
 			created = append(created, createdAt{id, startAt[actor], step})
 		}
+		if strings.HasPrefix(result, "restored-") {
+			var id uint64
+			fmt.Sscanf(result, "restored-%d", &id)
+			created = append(created, createdAt{id, startAt[actor], step})
+		}
+		if c := scripts[actor][callIdx[actor]]; c.kind == 4 && opIdx[actor] == 4 && result == "failed" {
+			// the stream broke off after the recovery shard had been registered (a lost compare-and-set at the 4th
+			// operation ends the call in the model by itself; the extra action is then a no-op)
+			acts = append(acts, fmt.Sprintf("AFail %d%%nat", actor))
+		}
 		callIdx[actor]++
 		opIdx[actor] = 0
 	}
@@ -127,6 +187,8 @@ func runCatSchedule(scripts map[int][]catCall, k int, choose func(parked []int, 
 				acts = append(acts, fmt.Sprintf("ACreate %d%%nat %d", a, c.name))
 			case 1:
 				acts = append(acts, fmt.Sprintf("ADelete %d%%nat %d", a, c.name))
+			case 3, 4:
+				acts = append(acts, fmt.Sprintf("ARestore %d%%nat %d", a, c.name))
 			default:
 				acts = append(acts, fmt.Sprintf("AList %d%%nat", a))
 			}
@@ -148,6 +210,10 @@ func catResultObs(results []string) string {
 			var id int64
 			fmt.Sscanf(x, "created-%d", &id)
 			rs = append(rs, oL(oN(1), oN(id)))
+		case strings.HasPrefix(x, "restored-"):
+			var id int64
+			fmt.Sscanf(x, "restored-%d", &id)
+			rs = append(rs, oL(oN(7), oN(id)))
 		case x == "exists":
 			rs = append(rs, oN(2))
 		case x == "failed":
@@ -179,7 +245,7 @@ func runC14(args []string) error {
 	}
 	r := rf.rng()
 	sum := &Summary{Engine: "c14", Seed: rf.Seed,
-		Rule: "(a) real table.Manager createTable/DeleteTable/GetTables for 2-3 managers over one metadata store with the real kv.LFSM compare-and-set semantics, every store operation released by a scheduler: all interleavings of two creations (same name, different names) and create/delete pairs enumerated, plus seeded random schedules of 1-4 calls per manager over three names; oracle: ids of successful creations never repeat and increase, at most one of racing creations of one name succeeds; (b) real diffTables on enumerated catalogue/running-set combinations; (c) a real Manager on a single-node dragonboat NodeHost: create, fill, delete, recreate under the same name, restore, tables with '/' in the name: new tables empty, other tables untouched, ids never reused; distinct = distinct (scripts, schedule); non-trivial = operations of two managers interleave inside a call"}
+		Rule: "(a) real table.Manager createTable/DeleteTable/GetTables and Restore (complete and interrupted streams, on a real NodeHost) for 2-3 managers over one metadata store with the real kv.LFSM compare-and-set semantics, every store operation released by a scheduler: all interleavings of two creations (same name, different names) and create/delete pairs enumerated, plus seeded random schedules of 1-4 calls per manager over three names; oracle: ids of successful creations never repeat and increase, at most one of racing creations of one name succeeds; (b) real diffTables on enumerated catalogue/running-set combinations; (c) a real Manager on a single-node dragonboat NodeHost: create, fill, delete, recreate under the same name, restore, tables with '/' in the name: new tables empty, other tables untouched, ids never reused; distinct = distinct (scripts, schedule); non-trivial = operations of two managers interleave inside a call"}
 	cf := &CasesFile{Requires: []string{"Model.Bytes", "Model.Obs", "Model.Catalogue", "Run.C14Run"}, CaseType: "c14case", Check: "c14_check", Show: "c14_model"}
 	hk := sum.hist("schedules")
 	seen := map[string]bool{}
@@ -241,6 +307,37 @@ func runC14(args []string) error {
 					return err
 				}
 			}
+		}
+	}
+	// Restore interleaved with the other managers' creations, deletions and listings (a real NodeHost per case)
+	nrest := 20
+	if rf.Tier == "thorough" {
+		nrest = 150 * rf.Scale
+	}
+	for i := 0; i < nrest; i++ {
+		k := 2 + r.Intn(2)
+		scripts := map[int][]catCall{}
+		var cs0 []catCall
+		if r.Intn(2) == 0 {
+			cs0 = append(cs0, catCall{kind: 0, name: 0})
+		}
+		if r.Intn(2) == 0 {
+			cs0 = append(cs0, catCall{kind: 4, name: 0}) // an attempt that breaks off
+		}
+		cs0 = append(cs0, catCall{kind: 3, name: 0})
+		if r.Intn(3) == 0 {
+			cs0 = append(cs0, catCall{kind: 3, name: r.Intn(2)})
+		}
+		scripts[0] = cs0
+		for a := 1; a < k; a++ {
+			var cs []catCall
+			for j := 0; j < 1+r.Intn(3); j++ {
+				cs = append(cs, catCall{kind: pick(r, []int{0, 0, 1, 1, 2}), name: r.Intn(2)})
+			}
+			scripts[a] = cs
+		}
+		if err := record(scripts, k, func(parked []int, step int) int { return r.Intn(len(parked)) }, "random with restores"); err != nil {
+			return err
 		}
 	}
 	n := rf.count(150, 4000)
@@ -471,30 +568,7 @@ func c14RealManager(sum *Summary) error {
 	}
 	// restore: the table moves to a NEW shard id (also when an earlier attempt broke off) and holds the stream only
 	{
-		mkStream := func(kvs [][2]string) (interface {
-			io.Reader
-			Close() error
-			Path() string
-		}, error) {
-			src, _, err := newRealFSM(pvfs.NewMem(), fsm.RecoveryTypeSnapshot)
-			if err != nil {
-				return nil, err
-			}
-			defer src.close()
-			var es []gEntry
-			for i, kv := range kvs {
-				es = append(es, gEntry{Idx: uint64(i + 1), Cmd: gCmd{Kind: regattapb.Command_PUT, K: []byte(kv[0]), V: []byte(kv[1])}})
-			}
-			if _, _, err := src.apply(es); err != nil {
-				return nil, err
-			}
-			file, path, _, _, err := captureTable(src, true, []int{1 << 20}, nil)
-			if err != nil {
-				return nil, err
-			}
-			_ = file.Close()
-			return snapshot.OpenFile(path)
-		}
+		mkStream := c14Stream
 		restore := func(name string, rd io.Reader) error {
 			done := make(chan error, 1)
 			go func() { done <- tm.Restore(name, rd) }()
@@ -591,4 +665,30 @@ func c14RealManager(sum *Summary) error {
 	sum.Evaluations += 12
 	sum.DistinctNontrivial += 6
 	return nil
+}
+
+// c14Stream: a table stream (as the leader's snapshot service produces it) holding the given pairs.
+func c14Stream(kvs [][2]string) (interface {
+	io.Reader
+	Close() error
+	Path() string
+}, error) {
+	src, _, err := newRealFSM(pvfs.NewMem(), fsm.RecoveryTypeSnapshot)
+	if err != nil {
+		return nil, err
+	}
+	defer src.close()
+	var es []gEntry
+	for i, kv := range kvs {
+		es = append(es, gEntry{Idx: uint64(i + 1), Cmd: gCmd{Kind: regattapb.Command_PUT, K: []byte(kv[0]), V: []byte(kv[1])}})
+	}
+	if _, _, err := src.apply(es); err != nil {
+		return nil, err
+	}
+	file, path, _, _, err := captureTable(src, true, []int{1 << 20}, nil)
+	if err != nil {
+		return nil, err
+	}
+	_ = file.Close()
+	return snapshot.OpenFile(path)
 }
